@@ -74,6 +74,10 @@ def run(ctx):
         a = core.rand_assignment(ver, rng, p_absent=rng.choice([0.2, 0.5, 0.8]))
         pfx = rng.choice(core.PREFIX[ver])
         objs.append((ver, pfx, a, core.render(ver, a, rng, prefix=pfx)))
+    for ver in "234":
+        for s in core.special(ver, rng, ctx.n(1200, 30000)):
+            pfx, fields = obs.parse_fields(ver, s)
+            objs.append((ver, pfx, dict(fields), s))
     ctx.sample({"vector": objs[0][3]})
     orders = {v: ref_order(v) for v in "234"}
     for v in "234":
@@ -169,6 +173,36 @@ def run(ctx):
             parts = mo.split("\t")
             if parts[0] != "ok" or (parts[1] == "1") != eq1 or (parts[1] == "1" and not h):
                 ctx.disagree("model-vs-code:v%s:eq" % v, [s, t], mo, "eq=%s hash_eq=%s" % (eq1, h))
+    # whatever near-valid strings the constructors ACCEPT: their clean vector must be a vector of the version's grammar
+    # (Lean specification), re-parse to an equal object, and be a fixed point
+    acc = []
+    for ver, pfx, a, s, o in built[: ctx.n(6000, 80000)]:
+        for _ in range(2):
+            t = core.edit(s, rng, ver)
+            if t == s:
+                continue
+            p, _ = obs.construct(ver, t)
+            if p is None:
+                continue
+            ctx.count()
+            rp = {"kind": "accepted", "ver": ver, "s": t}
+            try:
+                c = p.clean_vector()
+                q, e = obs.construct(ver, c)
+                if q is None or not (q == p) or hash(q) != hash(p) or q.clean_vector() != c or q.scores() != p.scores():
+                    ctx.violation("v%s:clean-roundtrip-of-accepted-string" % ver, "the clean vector of an accepted string does not re-parse to an equal object",
+                                  t, c, None if q is None else (q.clean_vector(), q == p), replay=rp)
+                acc.append((ver, t, c))
+            except Exception as ex:  # noqa
+                ctx.violation("v%s:clean-raised" % ver, "clean_vector() raised", t, None, repr(ex), replay=rp)
+    ctx.extra["accepted_edited_strings"] = len(acc)
+    if ctx.model_available and acc:
+        sel = [(v, t, c) for v, t, c in acc if core.sendable(c)]
+        verdict = core.run_driver(["S\tacc\t%s\t%s" % (v, enc(c)) for v, t, c in sel])
+        for (v, t, c), vd in zip(sel, verdict):
+            if vd != "ok":
+                ctx.violation("v%s:clean-vector-not-in-grammar" % v, "the clean vector of an accepted string is not a valid vector of the version's grammar",
+                              t, "a valid v%s vector" % v, c, replay={"kind": "accepted", "ver": v, "s": t})
     # other types
     for ver, pfx, a, s, o in built[:200]:
         for other in (s, None, 0, o.clean_vector(), (s,), object()):
@@ -194,6 +228,16 @@ class _Collect:
 def replay(data):
     r = data["replay"]
     c = _Collect()
+    if r.get("kind") == "accepted":
+        p, e = obs.construct(r["ver"], r["s"])
+        if p is None:
+            return True, "CVSS%s(%r) is rejected (%s)" % (r["ver"], r["s"], e)
+        cv = p.clean_vector()
+        q, e2 = obs.construct(r["ver"], cv)
+        ok = q is not None and q == p and hash(q) == hash(p) and q.clean_vector() == cv
+        vd = core.run_driver(["S\tacc\t%s\t%s" % (r["ver"], enc(cv))])[0] if core.sendable(cv) else "ok"
+        return ok and vd == "ok", "CVSS%s(%r) accepted; clean vector %r: re-parses to an equal object: %s; grammar verdict: %s" % (
+            r["ver"], r["s"], cv, ok, vd)
     if r["kind"] == "pair":
         (va, a), (vb, b) = r["a"], r["b"]
         oa, _ = obs.construct(va, a, warm=True)
